@@ -253,7 +253,7 @@ func (t *FnTrans) applyContract(ct *Contract, key string, callee *ssa.Function, 
 	}
 	for i, n := range pn {
 		T := argTypes[i]
-		env.vars[n] = SVal{S: t.termOfOpt(args[i]), T: T, Sort: t.sortOf(T), Tgt: args[i].P, Box: args[i].Box}
+		env.vars[n] = SVal{S: t.termOfOpt(args[i]), T: T, Sort: t.sortOf(T), Tgt: args[i].P, Box: args[i].Box, BoxSort: args[i].BoxSort}
 	}
 	if strings.HasPrefix(ct.Key, t.key+"#") || (t.ct != nil && strings.HasPrefix(ct.Key, t.ct.Key+"#")) {
 		// callback of this function: its contract may mention the function's own parameters
@@ -332,8 +332,28 @@ func (t *FnTrans) applyContract(ct *Contract, key string, callee *ssa.Function, 
 	if i := strings.LastIndex(short, "/"); i >= 0 {
 		short = short[i+1:]
 	}
+	var needUnlocked []string
+	t.collectUnlocked = &needUnlocked
 	for i, r := range ct.Requires {
 		t.obligeNamed(fmt.Sprintf("pre.%s.%d.%d", short, nth, i+1), "pre", env.evalBool(r.E), r.Text)
+	}
+	t.collectUnlocked = nil
+	for _, lc := range needUnlocked {
+		// a callee that needs a lock free takes and releases it itself
+		t.tpEvent(lc, true, true)
+	}
+	t.checkCallbackArgs(ct, key, short, nth, pn, args, argTypes, env.pkg)
+	if ct.PanicsIf != nil {
+		// the callee panics exactly under its declared condition (pre-state): that is a panic of the
+		// caller, allowed only under the caller's own panic condition; afterwards the call returned
+		pc := env.evalBool(ct.PanicsIf.E)
+		if t.ct != nil && t.ct.PanicsIf != nil {
+			e0 := t.selfEnv(t.entry, nil)
+			t.obligeNamed(fmt.Sprintf("panic.%s.%d", short, nth), "panic", implies(pc, e0.evalBool(t.ct.PanicsIf.E)), "callee panics only under the caller's declared panic condition")
+		} else {
+			t.obligeNamed(fmt.Sprintf("callpanic.%s.%d", short, nth), "callpanic", not(pc), "callee's panic condition is excluded: "+ct.PanicsIf.Text)
+		}
+		t.assume(not(pc))
 	}
 	pre := t.cur.clone()
 	env.old = pre
@@ -468,20 +488,38 @@ func (t *FnTrans) applyModifies(ct *Contract, env *Env) {
 	t.emit("(assert " + implies(t.guard, app(">=", na, t.get("$alloc"))) + ")")
 	t.set("$alloc", na)
 	// all items denote locations of the pre-state: collect first, then havoc
-	type modLoc struct{ comp, sortS, ref string }
+	type modLoc struct{ comp, sortS, ref, cond string }
 	var locs []modLoc
 	preSt := t.cur.clone()
 	saveSt := env.st
 	env.st = preSt
 	for _, m := range ct.Modifies {
+		cond := ""
+		if m.Cond != nil {
+			cond = env.evalBool(m.Cond)
+		}
 		t.modItem(m.E, env, func(comp string, sortS string, ref string) {
-			locs = append(locs, modLoc{comp, sortS, ref})
+			locs = append(locs, modLoc{comp, sortS, ref, cond})
 		})
 	}
 	env.st = saveSt
 	for _, ml := range locs {
-		func(comp string, sortS string, ref string) {
+		func(comp string, sortS string, ref string, cond string) {
 			t.comp(comp, sortS)
+			if cond != "" {
+				// conditional item: unchanged unless the condition held in the pre-state
+				old := t.get(comp)
+				if ref == "" {
+					t.set(comp, ite(cond, t.freshVersion(comp, "@m"), old))
+				} else {
+					fv := t.newConst(comp+"@mv", arrayElemSort(sortS))
+					if T, ok := t.compT[comp]; ok && !strings.HasPrefix(comp, "E.") {
+						t.assume(t.rangeFact(fv, T))
+					}
+					t.set(comp, app("store", old, ref, ite(cond, fv, app("select", old, ref))))
+				}
+				return
+			}
 			if ref == "" {
 				t.set(comp, t.freshVersion(comp, "@m"))
 			} else {
@@ -497,7 +535,7 @@ func (t *FnTrans) applyModifies(ct *Contract, env *Env) {
 				}
 				t.set(comp, app("store", t.get(comp), ref, fv))
 			}
-		}(ml.comp, ml.sortS, ml.ref)
+		}(ml.comp, ml.sortS, ml.ref, ml.cond)
 	}
 }
 
@@ -628,8 +666,14 @@ func (t *FnTrans) modItem(x *Expr, env *Env, f func(comp, sort, ref string)) {
 		return
 	case x.Op == "call" && x.Name == "ghost":
 		name := x.Args[0].Name
-		if s, ok := t.eng.specs.Ghosts[env.pkg.Path()+"."+name]; ok {
-			f("GG."+env.pkg.Path()+"."+name, s, "")
+		gp := env.pkg
+		if a := x.Args[0]; a.Op == "sel" && a.Args[0].Op == "id" {
+			if p := t.eng.findPkg(a.Args[0].Name, env.pkg); p != nil {
+				gp = p // ghost global of another package: ghost(pkg.name)
+			}
+		}
+		if s, ok := t.eng.specs.Ghosts[gp.Path()+"."+name]; ok {
+			f("GG."+gp.Path()+"."+name, s, "")
 			return
 		}
 		t.fail("modifies ghost(%s): unknown ghost global", name)
@@ -683,7 +727,14 @@ func (t *FnTrans) modItem(x *Expr, env *Env, f func(comp, sort, ref string)) {
 			if n, ok := derefNamed(env.resolveT(base.T)); ok {
 				if ts := t.eng.specs.Types[typeName(n)]; ts != nil {
 					if gs, ok := ts.GhostField[x.Name]; ok {
-						f("H."+originName(n)+".$"+x.Name, "(Array Int "+t.ghostSort(gs, n)+")", base.S)
+						ref := base.S
+						if _, isPtr := env.resolveT(base.T).Underlying().(*types.Pointer); !isPtr {
+							if base.P == nil {
+								t.fail("modifies %s: ghost field of a struct value that is not a location", x)
+							}
+							ref = t.termOfOpt(Val{P: base.P})
+						}
+						f("H."+originName(n)+".$"+x.Name, "(Array Int "+t.ghostSort(gs, n)+")", ref)
 						return
 					}
 				}
@@ -746,15 +797,26 @@ func (t *FnTrans) frameCheck() {
 	}
 	allowedWhole := map[string]bool{}
 	allowedRefs := map[string][]string{}
+	condWhole := map[string][]string{} // component -> conditions under which it may change as a whole
 	env := t.selfEnv(t.entry, t.entry)
 	for _, m := range t.ct.Modifies {
-		if m.E.Op == "id" && m.E.Name == "everything" {
+		if m.E.Op == "id" && m.E.Name == "everything" && m.Cond == nil {
 			return
 		}
+		cond := ""
+		if m.Cond != nil {
+			cond = env.evalBool(m.Cond)
+		}
 		t.modItem(m.E, env, func(comp, sortS, ref string) {
-			if ref == "" {
+			switch {
+			case cond != "" && ref == "":
+				condWhole[comp] = append(condWhole[comp], cond)
+			case cond != "":
+				// exempt the location only under the condition: fr$r != ref or not cond
+				allowedRefs[comp] = append(allowedRefs[comp], "?"+cond+"?"+ref)
+			case ref == "":
 				allowedWhole[comp] = true
-			} else {
+			default:
 				allowedRefs[comp] = append(allowedRefs[comp], ref)
 			}
 		})
@@ -782,11 +844,26 @@ func (t *FnTrans) frameCheck() {
 				cond = []string{app("<", "fr$r", a0)}
 			}
 			for _, r := range allowedRefs[c] {
+				if strings.HasPrefix(r, "?") {
+					k := strings.Index(r[1:], "?") + 1
+					cond = append(cond, or(not(r[1:k]), not(eq("fr$r", r[k+1:]))))
+					continue
+				}
 				cond = append(cond, not(eq("fr$r", r)))
+			}
+			for _, cw := range condWhole[c] {
+				cond = append(cond, not(cw))
 			}
 			goal = fmt.Sprintf("(forall ((fr$r Int)) %s)", implies(and(cond...), eq(app("select", now, "fr$r"), app("select", was, "fr$r"))))
 		} else {
 			goal = eq(now, was)
+			if len(condWhole[c]) > 0 {
+				var ncs []string
+				for _, cw := range condWhole[c] {
+					ncs = append(ncs, not(cw))
+				}
+				goal = implies(and(ncs...), goal)
+			}
 		}
 		t.obligeNamed("frame."+c+t.retSuffix(), "frame", goal, "component "+c+" changed only where the modifies clause allows")
 	}
@@ -977,5 +1054,126 @@ func (t *FnTrans) copyBuiltin(c *ssa.CallCommon, res ssa.Value) {
 	t.set(ec, app("store", h, app("s.base", dst), newArr))
 	if res != nil {
 		t.bind(res, n)
+	}
+}
+
+// checkCallbackArgs: a callee whose contract constrains a function-typed parameter ("callback p(..)(..)"
+// with ensures clauses) relies on every function passed for p to behave that way. At the call site this is
+// an obligation: the contract of the function passed (a declared function or closure under contract, or the
+// caller's own callback parameter) must imply the callee's callback postconditions, for all arguments and
+// results. A function value of unknown origin fails the obligation (recorded, fail closed).
+func (t *FnTrans) checkCallbackArgs(ct *Contract, key, short string, nth int, pn []string, args []Val, argTypes []types.Type, cpkg *types.Package) {
+	if len(ct.Callback) == 0 {
+		return
+	}
+	names := make([]string, 0, len(ct.Callback))
+	for n := range ct.Callback {
+		names = append(names, n)
+	}
+	sort.Strings(names)
+	for _, cbName := range names {
+		cb := ct.Callback[cbName]
+		if cb.Opts["nolocks"] != "" {
+			// the callee will invoke this function outside any critical section of its own; handing it over
+			// while the caller holds a lock runs it inside the caller's critical section
+			for k, v := range t.cur.Held {
+				if v != 0 {
+					t.obligeNamed(fmt.Sprintf("callback.underlock.%s.%d.%s", short, nth, cbName), "callback.underlock", "false", "function passed for "+cbName+" (to be run outside critical sections) while holding "+k)
+				}
+			}
+		}
+		if len(cb.Ensures) == 0 {
+			continue
+		}
+		idx := -1
+		for i, n := range pn {
+			if n == cbName {
+				idx = i
+			}
+		}
+		if idx < 0 || idx >= len(args) {
+			continue
+		}
+		a := args[idx]
+		sig, ok := t.resolve(argTypes[idx]).Underlying().(*types.Signature)
+		if !ok {
+			continue
+		}
+		if a.Fn == nil && a.Nm == "" && a.S == "0" {
+			continue // nil function value: the callee's own nil handling applies
+		}
+		var fc *Contract
+		var fpkg *types.Package
+		var fnames, rnames []string
+		switch {
+		case a.Fn != nil:
+			fc = t.eng.specs.Funcs[fnKey(a.Fn)]
+			if a.Fn.Pkg != nil {
+				fpkg = a.Fn.Pkg.Pkg
+			}
+			if fc != nil {
+				fsig := a.Fn.Signature
+				fnames, rnames = calleeNames(fc, a.Fn, fsig, false)
+				if fsig.Recv() != nil && len(fnames) > 0 {
+					fnames = fnames[1:] // bound method value: receiver is not a callback argument
+				}
+			}
+		case a.Nm != "" && t.ct != nil && t.ct.Callback[a.Nm] != nil:
+			fc = t.ct.Callback[a.Nm]
+			fpkg = t.fn.Pkg.Pkg
+			fnames, rnames = fc.Params, fc.Results
+		}
+		obName := fmt.Sprintf("cbarg.%s.%d.%s", short, nth, cbName)
+		if fc == nil {
+			t.obligeNamed(obName, "cbarg", "false", "the function passed for "+cbName+" has no contract from which the callee's assumption about it could be established")
+			continue
+		}
+		// fresh arguments and results
+		mk := func(prefix string, tup *types.Tuple) []SVal {
+			var out []SVal
+			for i := 0; i < tup.Len(); i++ {
+				T := t.resolve(tup.At(i).Type())
+				n := t.newConst(prefix, t.sortOf(T))
+				t.assume(t.rangeFact(n, T))
+				out = append(out, SVal{S: n, T: T, Sort: t.sortOf(T)})
+			}
+			return out
+		}
+		ps := mk("cb$a", sig.Params())
+		rs := mk("cb$r", sig.Results())
+		bind := func(env *Env, pnames, rnames []string) {
+			for i, v := range ps {
+				if i < len(pnames) {
+					env.vars[pnames[i]] = v
+				}
+			}
+			for i, v := range rs {
+				env.vars[fmt.Sprintf("r%d", i)] = v
+				if i < len(rnames) && rnames[i] != "" {
+					env.vars[rnames[i]] = v
+				}
+			}
+		}
+		fenv := &Env{t: t, vars: map[string]SVal{}, st: t.cur, old: t.cur, pkg: fpkg, selfAlloc0: t.get("$alloc")}
+		if a.Fn != nil && a.Bnd != nil {
+			for i, fv := range a.Fn.FreeVars {
+				if i < len(a.Bnd) {
+					T := t.resolve(fv.Type())
+					fenv.vars[fv.Name()] = SVal{S: t.termOfOpt(a.Bnd[i]), T: T, Sort: t.sortOf(T), Tgt: a.Bnd[i].P}
+				}
+			}
+		}
+		bind(fenv, fnames, rnames)
+		var hyp []string
+		for _, e := range fc.Ensures {
+			hyp = append(hyp, fenv.evalBool(e.E))
+		}
+		cenv := &Env{t: t, vars: map[string]SVal{}, st: t.cur, old: t.cur, pkg: cpkg, selfAlloc0: t.get("$alloc")}
+		bind(cenv, cb.Params, cb.Results)
+		var goal []string
+		for _, e := range cb.Ensures {
+			goal = append(goal, cenv.evalBool(e.E))
+		}
+		t.obligeNamed(obName, "cbarg", implies(and(hyp...), and(goal...)), "the function passed for "+cbName+" satisfies what "+short+" assumes about it: "+cb.Ensures[0].Text)
 	}
 }
